@@ -29,6 +29,11 @@ func init() {
 		d := s2.CellUnionFromDifference(x, y)
 		return []string{ids(u), ids(n), ids(d), bs(x.Contains(y)), bs(x.Intersects(y))}
 	}
+	replayers["cucont"] = func(a []string) []string {
+		x := s2.CellUnion(pIDs(a[0]))
+		y := s2.CellUnion(pIDs(a[1]))
+		return []string{bs(x.Contains(y))}
+	}
 	replayers["cuinterid"] = func(a []string) []string {
 		x := s2.CellUnion(pIDs(a[0]))
 		return []string{ids(s2.CellUnionFromIntersectionWithCellID(x, s2.CellID(pU64(a[1]))))}
@@ -237,6 +242,32 @@ func genC11(g *G) {
 		}
 		g.emit("cuvalid", ids(x))
 		g.emit("cubin", ids(x), ids(y))
+		if len(x) > 0 && r.Intn(3) == 0 {
+			// Contains with a RAW argument: cells of x, their children and descendants, each possibly several
+			// times, unsorted (the argument is only iterated over; duplicates and overlaps are legal there).  The
+			// multiplicity-counted leaf total of the argument often exceeds that of the receiver (seeded change C11_5).
+			var raw []s2.CellID
+			for k := 1 + r.Intn(6); k > 0; k-- {
+				c := x[r.Intn(len(x))]
+				switch r.Intn(4) {
+				case 0:
+					if c.Level() < 30 {
+						c = c.Children()[r.Intn(4)]
+					}
+				case 1:
+					if c.Level() < 29 {
+						c = c.Children()[r.Intn(4)].Children()[r.Intn(4)]
+					}
+				}
+				for m := 1 + r.Intn(3); m > 0; m-- {
+					raw = append(raw, c)
+				}
+			}
+			if r.Intn(4) == 0 && len(y) > 0 {
+				raw = append(raw, y[r.Intn(len(y))])
+			}
+			g.emit("cucont", ids(x), ids(raw))
+		}
 		// probe ids: cells of x/y, their parents/children/neighbours, random
 		var id s2.CellID
 		switch {
